@@ -1,4 +1,5 @@
 import Clover.Driver.Codec
+import Clover.Model.DocFields
 import Clover.Spec.Render
 /-! Line-protocol driver: one JSON case per input line, one canonical result per output line.
     Runs the executable model and the abstract specification side by side. -/
@@ -143,6 +144,10 @@ def handle (st : St) (line : String) : St × String :=
             let v ← parseValue v
             pure (st, showDoc (d.set p v))
           | .error _ => pure (st, (if d.has p then "1 " else "0 ") ++ showValue (d.get p))
+        | "fields" => do
+          let d ← parseDoc (← j.getObjVal? "doc")
+          let sub ← (← j.getObjVal? "sub").getBool?
+          pure (st, ",".intercalate ((d.fields sub).map toHex))
         | "norm" => do
           match normalize (← parseGoVal (← j.getObjVal? "v")) with
           | .ok v => pure (st, "ok " ++ showValue v)
